@@ -164,8 +164,17 @@ impl Cache for MemoryStore {
 
     fn flush(&self, header: CacheMetaData) {
         if header.time_to_live > 0 {
+            // never prolong an item: rewrite its ttl only if the flush deadline comes
+            // before the item's own expiry
+            let deadline = self.timer.timestamp() + header.time_to_live as u64;
             self.memory.alter_all(|_key, mut value| {
-                value.header.time_to_live = header.time_to_live;
+                let expires_at = match value.header.time_to_live {
+                    0 => u64::MAX,
+                    ttl => value.header.timestamp + ttl as u64,
+                };
+                if deadline < expires_at {
+                    value.header.time_to_live = (deadline - value.header.timestamp) as u32;
+                }
                 value
             });
         } else {
